@@ -4391,7 +4391,8 @@ theorem resolve_sound_state {proj : Project} {rank : List Nat} (wf : WFacts proj
       cases hfo : Names.findObject (finalEnv s) p with
       | obj j' =>
         simp only [hfo, Option.some.injEq] at hr; subst hr
-        unfold Names.findObject at hfo
+        have hfo := Names.findObject_old_of_obj hfo
+        unfold Names.findObjectOld at hfo
         simp only [hof] at hfo
         cases p with
         | nil => simp at hfo
